@@ -56,6 +56,7 @@ func (m *CPU) Run(app risc.Application) (int, error) {
 	cycle := 0
 	for {
 		cycle++
+		m.ctx.VerifTick(cycle)
 		if m.ctx.Debug {
 			fmt.Printf("%d\n", int32(cycle))
 		}
@@ -82,6 +83,7 @@ func (m *CPU) Run(app risc.Application) (int, error) {
 		}
 		if flush {
 			for !m.writeUnit.isEmpty() || !m.writeBus.IsEmpty() {
+				m.ctx.VerifTick(cycle)
 				cycle++
 				m.writeUnit.cycle(m.ctx, m.writeBus)
 			}
